@@ -5,7 +5,7 @@ import _nio as N
 
 CONFIG = dict(
     id="C17", level="other", shims=N.SHIMS, inject=N.INJECT,
-    kani=[N.U[k] for k in ('readv', 'writev', 'recvmsg', 'sendmsg', 'readv3', 'writev3')],
+    kani=[N.U[k] for k in ('readv', 'writev', 'recvmsg', 'sendmsg', 'readv3', 'writev3', 'recvmsg3', 'sendmsg3')],
     functions=N.FUNCS, assumptions=N.ASSUME,
     bounds="per unit: " + N.BB + " (read/write) ; " + N.BV + " (vectored)",
     explanation='Bounded stand-in (contract-based, Kani): obligations asserted inside the scripted kernel at every inner vectored call (the only place where what is handed down is observable), for every script and iovec shape within the stated bound.',
